@@ -181,3 +181,32 @@ def run(chk, repo):
     from rules.shared import optname
     chk.clauses.append('C19.h (shared R-THREAD) an option value bound to a name that is itself a CLI option carries that very option')
     optname(chk, repo, 'C19.h', ['cli.filter_fasta'], floor=0)
+    # ------------------------------------------------------------------ i: the coding-transcript set feeds every consumer
+    chk.rule('C19.i', 'R-OPTION scope: the coding-transcript set is loaded from the reference alone and handed to filter() unconditionally', 3)
+    chk.clauses.append('C19.i the coding-transcript set (used for keep-all-coding, keep-all-noncoding AND for the canonical test of the denylist rule) '
+                       'is loaded from the reference options only and is passed to filter() on every path')
+    lc = repo.func('cli.filter_fasta:load_coding_transcripts')
+    ff = repo.func('cli.filter_fasta:filter_fasta')
+    chk.uses(lc, ff)
+    reads = sorted({n.attr for n in ast.walk(lc.node) if isinstance(n, ast.Attribute) and unparse(n.value) == 'args'})
+    ref_opts = {'index_dir', 'annotation_gtf', 'genome_fasta', 'proteome_fasta', 'reference_source', 'invalid_protein_as_noncoding'}
+    chk.ob('C19.i', 'load_coding_transcripts reads only reference options', lc.where, set(reads) <= ref_opts and bool(reads),
+           f"load_coding_transcripts also depends on {sorted(set(reads) - ref_opts)}: the set can be empty although the canonical test of --denylist/--keep-canonical needs it",
+           key=lc.qual + '::option-scope', fn=lc.qual)
+    empties = [n for n in ast.walk(lc.node) if isinstance(n, ast.Return) and (n.value is None or (isinstance(n.value, ast.Call) and call_name(n.value) in ('set', 'list') and not n.value.args)
+               or (isinstance(n.value, (ast.Set, ast.List, ast.Tuple)) and not n.value.elts) or (isinstance(n.value, ast.Constant) and n.value.value is None))]
+    chk.ob('C19.i', 'load_coding_transcripts never returns a constant empty set', lc.where, not empties,
+           'load_coding_transcripts can return an empty collection without reading the reference', key=lc.qual + '::no-empty-return', fn=lc.qual)
+    fcfg = CFG(ff.node)
+    calls = [c for c in G.find_calls(ff.node, 'filter') if kwarg(c, 'coding_transcripts') is not None]
+    okp = len(calls) == 1
+    if okp:
+        v = kwarg(calls[0], 'coding_transcripts')
+        src = G.resolve_local(ff.node, v.id) if isinstance(v, ast.Name) else v
+        okp = isinstance(src, ast.Call) and call_name(src) == 'load_coding_transcripts' and [unparse(a) for a in src.args] == ['args']
+        if okp and isinstance(v, ast.Name):
+            site = fcfg.node_for(repo.enclosing_stmt(calls[0]))
+            defs = [n.id for n in fcfg.nodes if n.kind == 'stmt' and isinstance(n.ast, ast.Assign) and unparse(n.ast.targets[0]) == v.id]
+            okp = len(defs) == 1 and fcfg.dominates(defs[0], site)
+    chk.ob('C19.i', 'filter() receives load_coding_transcripts(args) on every path', ff.where, okp,
+           'the coding-transcript set passed to filter() is not the unconditionally loaded one', key=ff.qual + '::coding-tx-threading', fn=ff.qual)
